@@ -219,6 +219,10 @@ type Action struct {
 	// rest. A reader that loses its place in the stream during the stall takes
 	// the embedded bytes for a frame.
 	StallForge time.Duration
+	// ForceID (non-zero): the reply carries this message ID instead of the wire ID
+	// of the query (transports that do not match replies by ID - one stream per
+	// query - must still hand the caller its own ID back)
+	ForceID uint16
 }
 
 // Serve returns the per-connection server task body.
@@ -349,6 +353,9 @@ func (w *W1) Serve(opts ServerOpts) func(sc *simnet.Conn) {
 				}
 				if !act.NoReply {
 					b, ri := w.MakeReply(q, info, act.TC, act.Pad)
+					if act.ForceID != 0 && len(b) >= 2 {
+						b[0], b[1] = byte(act.ForceID>>8), byte(act.ForceID)
+					}
 					w.onReplied(sc.ID, wid)
 					sc.WriteMsg(b, ri)
 					for i := 0; i < act.Dup; i++ {
